@@ -571,6 +571,10 @@ class ExprMixin:
         if isinstance(t, TOpt):
             self.need(z3.Not(t.is_none(base.z)), 'TypeError')
             return self.get_item(V(t.inner, t.val(base.z)), idx)
+        if isinstance(t, TAny) and idx.t is TInt and concrete_int(idx.z) is not None:
+            r = self.any_op('index', [base, concrete_int(idx.z)])
+            if r is not None:
+                return r
         if isinstance(t, TDict):
             k = self.key_of(idx, t.k)
             self.need(z3.Select(t.dom(base.z), k.z), 'KeyError')
